@@ -2,16 +2,21 @@
 // memory.
 //
 // Enumerated: run modes
-//   ion          --task-based            (TaskBasedIonizationSimulation)
-//   rhd-rad      --task-based-rhd, radiation on
-//   rhd-norad    --task-based-rhd, radiation off
-//   rhd-restart  rhd-norad stopped after step 2 (dumps on) and restarted to the end
-// x every subset of the optional components the mode reads
-//   ion : trackers, diffuse field, continuous source
-//   rhd : live output {off, default outputs, all outputs}, hydro mask {off,
-//         RescaledIC, BlockSyntax (not in rhd-restart: that mask refuses to be
-//         dumped)}, turbulence forcing, diffuse field, continuous source
-// x threads {1, 2}, on a 4^3 cell grid in 2x2x1 subgrids.
+//   ion              --task-based            (TaskBasedIonizationSimulation)
+//   rhd-rad          --task-based-rhd, radiation on
+//   rhd-norad        --task-based-rhd, radiation off
+//   rhd-restart      rhd-norad stopped after step 2 (dumps on) and restarted to the end
+//   rhd-rad-restart  the same with radiation on
+// x every subset of the optional components the mode reads, with value variants
+//   ion : trackers, diffuse field, continuous source {off, normal, zero luminosity}
+//   rhd : live output {off, default outputs and ranges, all outputs with PDF
+//         ranges tight around the gas (cells in every bin, in the dropped last
+//         bin, at and above the upper limit)}, hydro mask {off, RescaledIC,
+//         BlockSyntax (not in the restart modes: that mask refuses to be dumped)},
+//         turbulence forcing, diffuse field, continuous source
+// x threads {1, 2} x grid {4^3 cells in 2x2x1 subgrids, 8^3 cells in 4x4x4
+// subgrids}. The rhd modes start from eight octants of different density and
+// velocity at equal pressure (ic_blocks_text).
 // Every configuration runs (1) in the AddressSanitizer build (asan for one
 // thread, ompasan for two) and (2) in the omp build (-g, for inlined frame
 // names) under valgrind memcheck.
@@ -39,8 +44,16 @@ static bool g_keep = false;
 static std::mutex g_probe_mtx;
 static std::vector< std::string > g_probe_outcomes; // JSON objects, not judged
 
-enum Mode { ION = 0, RHD_RAD, RHD_NORAD, RHD_RESTART, NMODE };
-static const char *MODE_NAME[] = {"ion", "rhd-rad", "rhd-norad", "rhd-restart"};
+enum Mode { ION = 0, RHD_RAD, RHD_NORAD, RHD_RESTART, RHD_RAD_RESTART, NMODE };
+static const char *MODE_NAME[] = {"ion", "rhd-rad", "rhd-norad", "rhd-restart", "rhd-rad-restart"};
+static bool is_restart(int m) { return m == RHD_RESTART || m == RHD_RAD_RESTART; }
+static bool has_radiation(int m) { return m == RHD_RAD || m == RHD_RAD_RESTART; }
+
+// grid layouts: cells of the whole grid / number of subgrids
+struct GridLayout {
+  int cells[3], nsub[3];
+};
+static GridLayout LAYOUTS[2] = {{{4, 4, 4}, {2, 2, 1}}, {{8, 8, 8}, {4, 4, 4}}};
 
 struct Config {
   int mode = 0;
@@ -51,14 +64,15 @@ struct Config {
   int turb = 0;
   // both
   int diffuse = 0;
-  int cont = 0;
+  int cont = 0;    // 0 off, 1 normal, 2 present with zero luminosity (ion only)
+  int layout = 0;  // index into LAYOUTS
   // ion
   int trackers = 0;
   // probe outside the lattice: "PhotonSourceDistribution: type: None"
   int nosource = 0;
 
   std::string label() const {
-    std::string s = fmt("%s/t%d", MODE_NAME[mode], threads);
+    std::string s = fmt("%s/t%d/grid%d", MODE_NAME[mode], threads, layout);
     if (mode == ION) {
       s += fmt("/trackers=%d", trackers);
     } else {
@@ -71,13 +85,15 @@ struct Config {
   }
   std::string json(const std::string &tool) const {
     return fmt("{\"mode\": %d, \"threads\": %d, \"live\": %d, \"mask\": %d, \"turb\": %d, \"diffuse\": %d, "
-               "\"cont\": %d, \"trackers\": %d, \"nosource\": %d, \"tool\": \"%s\", \"label\": \"%s\"}",
-               mode, threads, live, mask, turb, diffuse, cont, trackers, nosource, tool.c_str(), label().c_str());
+               "\"cont\": %d, \"trackers\": %d, \"nosource\": %d, \"layout\": %d, \"tool\": \"%s\", "
+               "\"label\": \"%s\"}",
+               mode, threads, live, mask, turb, diffuse, cont, trackers, nosource, layout, tool.c_str(),
+               label().c_str());
   }
   std::vector< int > factors() const {
     if (mode == ION)
-      return {threads - 1, trackers, diffuse, cont};
-    return {threads - 1, live, mask, turb, diffuse, cont};
+      return {threads - 1, trackers, diffuse, cont, layout};
+    return {threads - 1, live, mask, turb, diffuse, cont, layout};
   }
 };
 
@@ -102,10 +118,16 @@ static std::string common_text(const Config &c) {
   std::string t = FIXED_RATES;
   t += "SimulationBox:\n  anchor: [-1. pc, -1. pc, -1. pc]\n  sides: [2. pc, 2. pc, 2. pc]\n"
        "  periodicity: [false, false, false]\n";
-  t += "DensityGrid:\n  type: Cartesian\n  number of cells: [4, 4, 4]\n  periodicity: [false, false, false]\n";
-  t += "DensitySubGridCreator:\n  number of subgrids: [2, 2, 1]\n  periodicity: [false, false, false]\n";
-  t += "DensityFunction:\n  type: Homogeneous\n  density: 100. cm^-3\n  temperature: 8000. K\n"
-       "  neutral fraction H: 1.\n";
+  const GridLayout &gl = LAYOUTS[c.layout];
+  t += fmt("DensityGrid:\n  type: Cartesian\n  number of cells: [%d, %d, %d]\n  periodicity: [false, false, false]\n",
+           gl.cells[0], gl.cells[1], gl.cells[2]);
+  t += fmt("DensitySubGridCreator:\n  number of subgrids: [%d, %d, %d]\n  periodicity: [false, false, false]\n",
+           gl.nsub[0], gl.nsub[1], gl.nsub[2]);
+  if (c.mode == ION)
+    t += "DensityFunction:\n  type: Homogeneous\n  density: 100. cm^-3\n  temperature: 8000. K\n"
+         "  neutral fraction H: 1.\n";
+  else
+    t += "DensityFunction:\n  type: BlockSyntax\n  filename: ic_blocks.yml\n";
   t += "DensityGridWriter:\n  type: Gadget\n  padding: 3\n  prefix: snap_\n";
   t += "TemperatureCalculator:\n  do temperature calculation: false\n";
   t += "Abundances:\n  helium: 0.\n";
@@ -119,9 +141,10 @@ static std::string common_text(const Config &c) {
     t += "DiffuseReemissionHandler:\n  type: FixedValue\n  reemission probability: 0.5\n"
          "  reemission frequency: 3.4e15 Hz\n";
   if (c.cont)
-    t += "ContinuousPhotonSource:\n  type: Isotropic\n"
-         "ContinuousPhotonSourceSpectrum:\n  type: Monochromatic\n  frequency: 3.28847e+15 Hz\n"
-         "  total flux: 1.e13 m^-2 s^-1\n";
+    t += fmt("ContinuousPhotonSource:\n  type: Isotropic\n"
+             "ContinuousPhotonSourceSpectrum:\n  type: Monochromatic\n  frequency: 3.28847e+15 Hz\n"
+             "  total flux: %s m^-2 s^-1\n",
+             c.cont == 2 ? "0." : "1.e13");
   return t;
 }
 
@@ -174,7 +197,7 @@ static std::string rhd_text(const Config &c) {
   t += fmt("  source copy level: %d\n", c.threads == 2 ? 1 : 0);
   t += fmt("  total time: %.17g s\n  maximum timestep: %.17g s\n  snapshot time: %.17g s\n", TOTAL_TIME,
            TOTAL_TIME / 4., TOTAL_TIME / 2.);
-  t += fmt("  do radiation: %s\n", c.mode == RHD_RAD ? "true" : "false");
+  t += fmt("  do radiation: %s\n", has_radiation(c.mode) ? "true" : "false");
   if (c.mask)
     t += "  use mask: true\n";
   if (c.turb)
@@ -190,12 +213,44 @@ static std::string rhd_text(const Config &c) {
     t += fmt("TurbulenceForcing:\n  time step: %.17g s\n  forcing power: 1.e-6 m^2 s^-3\n  random seed: 17\n"
              "  minimum wave number: 1.\n  maximum wave number: 2.\n  peak forcing wave number: 1.5\n",
              TOTAL_TIME / 10.);
-  if (c.live)
+  if (c.live == 1) // default outputs, default (wide) ranges
     t += fmt("LiveOutputManager:\n  enabled: true\n  output interval: %.17g s\n  number of density bins: 10\n"
-             "  number of velocity bins: 10\n  output ionized surface density: %s\n",
-             TOTAL_TIME / 4., c.live == 2 ? "true" : "false");
-  if (c.mode == RHD_RESTART)
+             "  number of velocity bins: 10\n",
+             TOTAL_TIME / 4.);
+  if (c.live == 2) // all outputs; PDF ranges tight around the gas: see ic_blocks_text()
+    t += fmt("LiveOutputManager:\n  enabled: true\n  output interval: %.17g s\n"
+             "  output ionized surface density: true\n"
+             "  number of velocity bins: 4\n  maximum velocity: 2. km s^-1\n"
+             "  number of density bins: 3\n  minimum density: 1.6726e-22 g cm^-3\n"
+             "  maximum density: 1.3381e-21 g cm^-3\n",
+             TOTAL_TIME / 4.);
+  if (is_restart(c.mode))
     t += "RestartManager:\n  output interval: 0. s\n";
+  return t;
+}
+
+/// initial condition of the rhd modes: the eight octants of the box hold gas
+/// of different density and speed at equal pressure. With the "tight" live
+/// output ranges (vmax = 2 km/s in 4(+1 dropped) bins; densities 100..800 cm^-3
+/// in 3 bins) the speeds 0, 0.1, 0.3, 0.5, 0.7 vmax fall into the bins 0..3,
+/// 0.9 vmax into the deliberately dropped last bin, 1.0 and 1.5 vmax at and
+/// above the range; the densities lie below, at the lower limit, inside, at the
+/// upper limit and above the density range.
+static std::string ic_blocks_text() {
+  struct Oct {
+    double n, v[3];
+  };
+  const Oct o[8] = {{50., {0., 0., 0.}},      {100., {0.2, 0., 0.}},   {200., {0., 0.6, 0.}},
+                    {400., {0., 0., -1.}},    {800., {-1.4, 0., 0.}},  {1600., {0., -1.8, 0.}},
+                    {100., {0., 0., 2.}},     {100., {1.8, -1.8, 1.6970562748477141}}};
+  std::string t = "number of blocks: 8\n";
+  for (int i = 0; i < 8; ++i) {
+    const double cx = (i & 1) ? 0.5 : -0.5, cy = (i & 2) ? 0.5 : -0.5, cz = (i & 4) ? 0.5 : -0.5;
+    t += fmt("block[%d]:\n  origin: [%g pc, %g pc, %g pc]\n  sides: [1. pc, 1. pc, 1. pc]\n  type: cube\n"
+             "  number density: %g cm^-3\n  initial temperature: %.17g K\n  neutral fraction H: 1.\n"
+             "  initial velocity: [%.17g km s^-1, %.17g km s^-1, %.17g km s^-1]\n",
+             i, cx, cy, cz, o[i].n, 8000. * 100. / o[i].n, o[i].v[0], o[i].v[1], o[i].v[2]);
+  }
   return t;
 }
 
@@ -515,7 +570,7 @@ static void check_files(verif::Result &R, Counters &cn, const Config &c, const s
   } else {
     want.push_back("snap_001.hdf5");
     want.push_back("snap_002.hdf5"); // the final snapshot
-    if (c.mode == RHD_RESTART)
+    if (is_restart(c.mode))
       want.push_back("restart.dump");
     if (c.live) {
       want.push_back("surface_density_0000.txt");
@@ -551,6 +606,8 @@ static void run_job(verif::Result &R, Counters &cn, const Config &c, const std::
     write_file(dir + "/trackers.yml", trackers_text(c));
   if (c.mode != ION && c.mask == 2)
     write_file(dir + "/maskblocks.yml", maskblocks_text());
+  if (c.mode != ION)
+    write_file(dir + "/ic_blocks.yml", ic_blocks_text());
 
   std::vector< std::vector< std::string > > legs;
   {
@@ -561,7 +618,7 @@ static void run_job(verif::Result &R, Counters &cn, const Config &c, const std::
     a.push_back("--threads");
     a.push_back(fmt("%d", c.threads));
     a.push_back(c.mode == ION ? "--task-based" : "--task-based-rhd");
-    if (c.mode == RHD_RESTART) {
+    if (is_restart(c.mode)) {
       std::vector< std::string > first = a;
       first.push_back("--number-of-steps");
       first.push_back("2");
@@ -670,38 +727,41 @@ static void run_job(verif::Result &R, Counters &cn, const Config &c, const std::
 // ---------------------------------------------------------------------------
 static std::vector< Config > all_configs(int mode) {
   std::vector< Config > v;
-  for (int th = 1; th <= 2; ++th) {
-    if (mode == ION) {
-      for (int tr = 0; tr < 2; ++tr)
-        for (int d = 0; d < 2; ++d)
-          for (int cs = 0; cs < 2; ++cs) {
-            Config c;
-            c.mode = mode;
-            c.threads = th;
-            c.trackers = tr;
-            c.diffuse = d;
-            c.cont = cs;
-            v.push_back(c);
-          }
-    } else {
-      const int nmask = (mode == RHD_RESTART) ? 2 : 3;
-      for (int lv = 0; lv < 3; ++lv)
-        for (int m = 0; m < nmask; ++m)
-          for (int tu = 0; tu < 2; ++tu)
-            for (int d = 0; d < 2; ++d)
-              for (int cs = 0; cs < 2; ++cs) {
-                Config c;
-                c.mode = mode;
-                c.threads = th;
-                c.live = lv;
-                c.mask = m;
-                c.turb = tu;
-                c.diffuse = d;
-                c.cont = cs;
-                v.push_back(c);
-              }
+  for (int th = 1; th <= 2; ++th)
+    for (int lay = 0; lay < 2; ++lay) {
+      if (mode == ION) {
+        for (int tr = 0; tr < 2; ++tr)
+          for (int d = 0; d < 2; ++d)
+            for (int cs = 0; cs < 3; ++cs) {
+              Config c;
+              c.mode = mode;
+              c.threads = th;
+              c.layout = lay;
+              c.trackers = tr;
+              c.diffuse = d;
+              c.cont = cs;
+              v.push_back(c);
+            }
+      } else {
+        const int nmask = is_restart(mode) ? 2 : 3;
+        for (int lv = 0; lv < 3; ++lv)
+          for (int m = 0; m < nmask; ++m)
+            for (int tu = 0; tu < 2; ++tu)
+              for (int d = 0; d < 2; ++d)
+                for (int cs = 0; cs < 2; ++cs) {
+                  Config c;
+                  c.mode = mode;
+                  c.threads = th;
+                  c.layout = lay;
+                  c.live = lv;
+                  c.mask = m;
+                  c.turb = tu;
+                  c.diffuse = d;
+                  c.cont = cs;
+                  v.push_back(c);
+                }
+      }
     }
-  }
   return v;
 }
 
@@ -771,6 +831,7 @@ int main(int argc, char **argv) {
     c.cont = atoi(verif::replay_field(txt, "cont").c_str());
     c.trackers = atoi(verif::replay_field(txt, "trackers").c_str());
     c.nosource = atoi(verif::replay_field(txt, "nosource").c_str());
+    c.layout = atoi(verif::replay_field(txt, "layout").c_str()) ? 1 : 0;
     std::string tool = verif::replay_field(txt, "tool");
     if (c.threads < 1)
       c.threads = 1;
@@ -827,8 +888,8 @@ int main(int argc, char **argv) {
   // long jobs first: valgrind, two threads, radiation
   std::stable_sort(jobs.begin(), jobs.end(), [](const Job &a, const Job &b) {
     auto w = [](const Job &j) {
-      return (j.tool == "valgrind" ? 8 : 0) + (j.c.threads == 2 ? 2 : 0) + (j.c.mode == RHD_RAD ? 4 : 0) +
-             (j.c.mode == RHD_RESTART ? 1 : 0);
+      return (j.tool == "valgrind" ? 16 : 0) + (j.c.layout ? 8 : 0) + (j.c.threads == 2 ? 2 : 0) +
+             (has_radiation(j.c.mode) ? 4 : 0) + (is_restart(j.c.mode) ? 1 : 0);
     };
     return w(a) > w(b);
   });
